@@ -70,18 +70,23 @@ def rule_planners(ctx, P, rc, rd, backends):
             rd.fail(f'{f.name}: -1 terminator', func=f.name, sig='no terminator store', loc=stores[0].loc, msg='fragments_needed[] is never terminated with -1')
             continue
         if 'xor' in f.mod.src:
-            # every path returning >= 0 passes the terminator store: from the `ret >= 0` true edge
-            ok = False
-            for src, dst in dominating_edges(f, terms[0].bb):
-                for cond, truth in edge_condition(f, src, dst):
-                    d = f.defs.get(cond) if isinstance(cond, str) else None
-                    if d is not None and d.op == 'icmp' and ((d.pred == 'sge' and d.ops[1] == '0' and truth) or (d.pred == 'slt' and d.ops[1] == '0' and not truth)
-                                                           or (d.pred == 'sgt' and d.ops[1] == '-1' and truth)):
-                        other = [x for x in src.succs if x is not dst]
-                        vals = returns_via_edge(f, src, other[0]) if other else set()
-                        esc = reaches_without(f, dst, lambda i: i.op == 'ret', lambda i: i is terms[0])
-                        if esc is None:
-                            ok = True
+            # every path that avoids the terminator store returns a provably negative value
+            from ..guards import upper_bound_at
+            tb = terms[-1].bb
+            live, work = {f.entry}, [f.entry]
+            while work:
+                x = work.pop()
+                if x is tb:
+                    continue
+                for y in x.succs:
+                    if y not in live:
+                        live.add(y); work.append(y)
+            live.discard(tb)
+            ok = True
+            for rt in [i for i in f.insts() if i.op == 'ret' and i.bb in live]:
+                hi = upper_bound_at(P, f, rt.ops[0], rt.bb, None, 0, live)
+                if hi is None or hi >= 0:
+                    ok = False
             if ok:
                 rd.ok(f'{f.name}: every path with ret >= 0 stores the -1 terminator', func=f.name, loc=terms[0].loc)
             else:
